@@ -70,19 +70,29 @@ def run(ctx):
     ts_m = calc.methods["teststatistic"]
 
     def teststat(stat_name, region):
+        """The calculator is set up by its (interpreted) constructor and has already evaluated the statistic at
+        ANOTHER mu: the evaluation at mu_test must not reuse anything of that earlier call."""
+        s_o, a_o = fn("sqrt", Poly.atom("Q_other")), fn("sqrt", Poly.atom("QA_other"))
+
         def tsf(args, kw):
             data = args[1]
+            here = str(to_poly(args[0])) == "mu_test"
             if isinstance(data, Obj) and data.name == "ASIMOV":
-                return (QA, (Obj("mubhathat_A"), Obj("muhatbhat_A")))
-            return (Q, (Obj("mubhathat"), Obj("muhatbhat")))
+                return (QA if here else Poly.atom("QA_other"), (Obj("mubhathat_A"), Obj("muhatbhat_A")))
+            return (Q if here else Poly.atom("Q_other"), (Obj("mubhathat"), Obj("muhatbhat")))
 
         ext = {
             "get_test_stat": lambda args, kw: PyFunc(tsf, "teststat_func"),
             "generate_asimov_data": lambda args, kw: (Obj("ASIMOV"), Obj("asimov_pars")),
             "HypoTestFitResults": lambda args, kw: Obj("fitresults"),
         }
-        attrs = {"test_stat": stat_name, "data": Obj("data"), "pdf": Obj("pdf"), "init_pars": Obj("init"), "par_bounds": Obj("bounds"), "fixed_params": Obj("fixed"), "sqrtqmuA_v": None, "fitted_pars": None}
-        it = Interp({"poi_test": Poly.atom("mu_test"), "utils": Obj("utils")}, attrs, region, cls_name=calc.name, externals=ext)
+        attrs = {}
+        ienv = {"data": Obj("data"), "pdf": Obj("pdf"), "init_pars": Obj("init"), "par_bounds": Obj("bounds"), "fixed_params": Obj("fixed"), "test_stat": stat_name, "calc_base_dist": "normal"}
+        Interp(ienv, attrs, {}, cls_name=calc.name, externals=ext).run(A.strip_docstring(calc.methods["__init__"].node.body))
+        reg2 = dict(region)
+        reg2.update({str(s_o): Fraction(1), str(a_o): Fraction(2)})
+        Interp({"poi_test": Poly.atom("mu_other"), "utils": Obj("utils")}, attrs, reg2, cls_name=calc.name, externals=ext).run(A.strip_docstring(ts_m.node.body))
+        it = Interp({"poi_test": Poly.atom("mu_test"), "utils": Obj("utils")}, attrs, reg2, cls_name=calc.name, externals=ext)
         v = it.run(A.strip_docstring(ts_m.node.body))
         return to_poly(v), attrs, it.thresholds_seen
 
@@ -147,6 +157,9 @@ def run(ctx):
             T, attrs, seen = teststat(stat, reg)
         except Undecided as e:
             ctx.unrecognised(r1, ts_m, f"teststatistic[{stat}]", f"not interpretable: {e}")
+            continue
+        if "_other" in str(T) or "_other" in str(attrs.get("sqrtqmuA_v")):
+            ctx.violated(r1, ts_m, f"teststatistic[{stat}] after an evaluation at another mu", "the statistic (or the stored sqrt(qA)) at mu_test is built from values computed in an earlier teststatistic call at a different mu: the Asimov statistic depends on the tested mu and must be recomputed", expected=f"{s} - {a} / quadratic form in Q, QA", found=f"T = {T}; sqrtqmuA_v = {attrs.get('sqrtqmuA_v')}")
             continue
         if to_poly(attrs.get("sqrtqmuA_v")) != a:
             ctx.violated(r1, ts_m, f"teststatistic[{stat}] stores sqrtqmuA_v", "the value stored for the distributions is not sqrt of the Asimov statistic", expected=str(a), found=str(attrs.get("sqrtqmuA_v")))
